@@ -142,7 +142,7 @@ type docObs struct {
 	Hex     string `json:"hex"`
 }
 
-type snapshot struct {
+type lspSnapshot struct {
 	Delivered int               `json:"delivered"` // frames delivered (and fully handled) so far
 	Out       string            `json:"out"`       // bytes written since the previous snapshot (hex)
 	Docs      map[string]docObs `json:"docs"`
@@ -156,7 +156,7 @@ type serveCase struct {
 }
 
 type serveResult struct {
-	Snapshots []snapshot `json:"snapshots"`
+	Snapshots []lspSnapshot `json:"snapshots"`
 	Panic     string     `json:"panic,omitempty"`
 	Returned  bool       `json:"returned"`
 	Err       string     `json:"err,omitempty"`
@@ -184,7 +184,7 @@ func runServe(c serveCase) serveResult {
 				srv.VerifSetLastReset(time.Now().Add(time.Hour)) // the window never expires by itself
 			}
 		}
-		sn := snapshot{Delivered: delivered, Docs: map[string]docObs{}}
+		sn := lspSnapshot{Delivered: delivered, Docs: map[string]docObs{}}
 		b := out.Bytes()
 		sn.Out = hex.EncodeToString(b[seen:])
 		seen = len(b)
